@@ -1,7 +1,9 @@
 import Driver.AttrMapD
+import Driver.AddrD
 
 def main (args : List String) : IO UInt32 := do
   match args with
   | ["attrmap"] => Driver.AttrMapD.main; return 0
+  | ["addr"] => Driver.AddrD.main; return 0
   | ["attrpath"] => Driver.AttrPathD.main; return 0
   | _ => IO.eprintln "usage: driver <component>"; return 2
